@@ -132,6 +132,8 @@ def scenario(sim):
     sim.c30 = {"fam": fam, "what": None}
     if fam == "server":
         return server_family(sim)
+    if sim.choose(8) == 0:
+        return client_family(sim, stalled=True)
     return client_family(sim)
 
 
@@ -146,6 +148,9 @@ def server_family(sim):
     root = tempfile.mkdtemp(prefix="verif-sftp-")
     sim.cleanup.append(lambda: shutil.rmtree(root, ignore_errors=True))
     faults = Faults(sim)
+    # the application behind the server fails now and then (a handle's close() reporting a late ENOSPC, a
+    # callback raising instead of returning a status): still exactly one answer per request
+    faults.p_raise = (0.0, 0.0, 0.05, 0.25)[sim.choose(4)]
     r = sim.payload
 
     class Stub(StubSFTP):
@@ -396,9 +401,18 @@ def well_formed(t, body):
 
 
 # ---------------------------------------------------------------- client family
-def client_family(sim):
+def client_family(sim, stalled=False):
     sim.p_switch = (0.02, 0.1, 0.3)[sim.choose(3)]
-    s = SftpSession(sim, latency=(0.0, 0.002, 0.02)[sim.choose(3)])
+    if stalled:
+        # smallest flow-control windows on both sides and a file large enough that the read-ahead requests alone
+        # overflow the server's window: the read-ahead thread and the server both sit blocked in a send until the
+        # application reads (the file is sparse; only a few chunks ever cross the link)
+        small = {"default_window_size": 32768}
+        s = SftpSession(sim, latency=(0.0, 0.002)[sim.choose(2)], pair_kw={"client_kw": small, "server_kw": small})
+        with open(s.rpath("huge.bin"), "wb") as f:
+            f.truncate(40 << 20)
+    else:
+        s = SftpSession(sim, latency=(0.0, 0.002, 0.02)[sim.choose(3)])
     r = sim.payload
     s.put_both("big.bin", r.randbytes((70000, 200000, 400000)[sim.choose(3)]))
     s.put_both("small.bin", r.randbytes(5000))
@@ -409,7 +423,32 @@ def client_family(sim):
     files = {}
     counts = set()
 
+    def stalled_program():
+        def open_prefetch():
+            f = s.sftp.open("huge.bin", "rb")
+            f.prefetch(40 << 20)
+            files["p"] = f
+        step("open+prefetch", open_prefetch)
+        step("pause", lambda: sim.sleep((1.0, 5.0)[sim.choose(2)]))
+        f = files["p"]
+        if f._prefetch_threads and 0 < len(f._prefetch_extents) < 1280:
+            sim.probe("readahead_thread_blocked_mid_way")
+        sim.c30["sent"] = len(f._prefetch_extents)
+        for _ in range(1 + sim.choose(3)):
+            step("read-prefetched", lambda: files["p"].read((1024, 40000)[sim.choose(2)]))
+        sim.probe("read_with_both_windows_full")
+        # any further request while the read-ahead is still stalled (nobody reads responses now)
+        k = sim.choose(3)
+        if k == 0:
+            step("stalled-close", lambda: files.pop("p").close())
+        elif k == 1:
+            step("stalled-stat", lambda: s.sftp.stat("huge.bin"))
+        else:
+            step("stalled-open", lambda: s.sftp.open("huge.bin", "rb").close())
+
     def program():
+        if stalled:
+            return stalled_program()
         wf = s.sftp.open("out.bin", "wb")
         wf.set_pipelined(True)
         files["w"] = wf
@@ -418,8 +457,11 @@ def client_family(sim):
             k = sim.choose(12)
             if k < 4:
                 cnt = (1, 20, 120, 250)[sim.choose(4)]
-                sz = (1, 10, 1000)[sim.choose(3)]
-                step("pipelined-writes x%d" % cnt, lambda: [wf.write(b"x" * sz) for _ in range(cnt)])
+                sz = (1, 10, 1000, 40000)[sim.choose(4)]     # 40000: one SFTP packet leaves in several channel sends
+                if sz == 40000:
+                    cnt = min(cnt, 20)
+                step("pipelined-writes x%d%s" % (cnt, " big" if sz == 40000 else ""),
+                     lambda: [wf.write(b"x" * sz) for _ in range(cnt)])
             elif k == 4:
                 step("stat", lambda: s.sftp.stat("small.bin"))
             elif k == 5:
@@ -462,6 +504,7 @@ def client_family(sim):
         steps.append(name)
         counts.add(name.split(" ")[0])
         sim.c30["what"] = "client step %d %s after %s" % (cur["i"], name, steps[-4:-1])
+        sim.c30["step"] = name
         fn()
         cur["name"] = None
         sim.probe("client_steps")
@@ -484,8 +527,10 @@ def client_family(sim):
             if sim.nevents != last_events:
                 last_events, last_change = sim.nevents, sim.now     # packets still flow: slow is not stuck
             if task.state != core.DONE and cur["name"] is not None and sim.now - max(cur["t0"], last_change) > T_CALL + 10.0:
-                raise Violation(("C30", "client-call-never-returns", cur["name"].split(" ")[0],
-                                 core.where_parked(task)),
+                fp = ("C30", "client-call-never-returns", cur["name"].split(" ")[0], core.where_parked(task))
+                if cur["name"].startswith("stalled-"):
+                    fp = ("C30", "client-call-never-returns", "readahead-stalled", cur["name"])
+                raise Violation(fp,
                                 "client step %d (%s) has been blocked for %.0f virtual seconds although the server answers "
                                 "every request; earlier steps: %s; parked in %s"
                                 % (cur["i"], cur["name"], sim.now - cur["t0"], steps[-6:-1], core.where_parked(task)),
@@ -517,5 +562,8 @@ def on_hang(sim, exc):
     for t in sim.tasks:
         if t.name == "client-program" and t.state != core.DONE:
             where = core.where_parked(t)
+    if info.get("step", "").startswith("stalled-"):
+        return Violation(("C30", "client-call-never-returns", "readahead-stalled", info["step"]),
+                         "%s: %s (client parked in %s)" % (info["what"], msg[:100], where))
     return Violation(("C30", "client-call-never-returns", "deadlock", where),
                      "%s: %s (client parked in %s)" % (info["what"], msg[:100], where))
